@@ -36,8 +36,9 @@ ASSUMPTIONS = [
     "sequentially consistent interleaving of atomic actions with mutexes",
     "the translator harness/cmd/gen-c20 (go/parser + go/types, syntactic rules R1-R6) is trusted: inventory complete for "
     "non-test files compiled without the verif tag, classification conservative (what no rule decides is `unclassified`)",
-    "shared state inside the Go standard library (math/rand's locked global source used by radixsort, fmt, time) is "
-    "outside the inventory; the race detector sees it in the race search",
+    "state inside the Go standard library is covered only by a table in gen-c20: every stateful package-level function / "
+    "variable of a package outside the module that non-test code refers to is listed (std:math/rand Intn = locked global "
+    "source, fmt, time, io.EOF ...); anything not in the table is `unclassified`",
     "the race detector only observes the schedules that occurred; it is a search for a failing schedule, not a proof",
 ]
 
@@ -185,7 +186,7 @@ def _shrink(exe, case, err):
             rc, out, e2 = _run_race(exe, "--replay " + cp, "shrink", 300)
             if _failing(rc, out, e2):
                 os.remove(cp)
-                return _last_case(out) or c, e2 or err
+                return c, e2 or err
         os.remove(cp)
     return case, err
 
